@@ -347,6 +347,42 @@ func runC08(r *Run) {
 		})
 		r.Check(found, "R7", vaPfx+sh.fn+"#definition", P.Pos(fnPos(fn)), sh.text, "ClawbackVestingAccount."+sh.fn+" no longer has its defining shape ("+sh.text+"): the locked amount the bank keeper enforces is computed from a different combination of the schedules")
 	}
+	// R8: a clawback account stops being one only when nothing is locked up or unvested any more
+	r.Rule("R8", "PATH+SHAPE.unlock-by-conversion: HasLockedCoins(t) = !GetLockedUpCoins(t).IsZero() — the lock-up schedule itself, not LockedCoins, which is net of tracked delegations (coins that are delegated are still locked and come back on undelegation); ConvertVestingAccount replaces the vesting account by a plain account only over the edges GetVestingCoins(block time).IsZero() and !HasLockedCoins(block time)")
+	if hl, ok := P.FnOK(vaPfx + "HasLockedCoins"); ok {
+		okShape := false
+		eachInstr(hl, func(in ssa.Instruction) {
+			if ret, ok := in.(*ssa.Return); ok && len(ret.Results) == 1 {
+				sl := backSlice(ret.Results[0])
+				okShape = sl.HasCall(func(g CallInfo) bool { return g.Name == "GetLockedUpCoins" }) && sl.HasCall(func(g CallInfo) bool { return g.Name == "IsZero" }) &&
+					!sl.HasCall(func(g CallInfo) bool { return g.Name == "LockedCoins" }) && sl.HasParam("blockTime")
+			}
+		})
+		r.Check(okShape, "R8", vaPfx+"HasLockedCoins#definition", P.Pos(fnPos(hl)), "!GetLockedUpCoins(blockTime).IsZero()",
+			"HasLockedCoins is no longer defined by the lock-up schedule alone (GetLockedUpCoins): defined through LockedCoins it is false while all still-locked coins are delegated, so the account can be converted into a plain account, undelegate, and spend coins whose lock-up has not ended")
+	} else {
+		r.Bad("R8", "anchor/HasLockedCoins", "", "not found")
+	}
+	if cv, ok := P.FnOK("(x/vesting/keeper.Keeper).ConvertVestingAccount"); ok {
+		isSet := isCallMatching(func(ci CallInfo) bool { return ci.Name == "SetAccount" })
+		vestZero, _ := guardPassEdges(cv, func(cond ssa.Value) (bool, bool) {
+			c, ok := callNamed(cond, "IsZero")
+			if !ok {
+				return false, false
+			}
+			return true, backSlice(callArgs(c)[0]).HasCall(func(g CallInfo) bool { return g.Name == "GetVestingCoins" })
+		})
+		noLock, _ := guardPassEdges(cv, func(cond ssa.Value) (bool, bool) {
+			_, ok := callNamed(cond, "HasLockedCoins")
+			return false, ok
+		})
+		w1 := PathQuery{Fn: cv, Target: isSet, DelEdge: edgeSet(vestZero)}.Search()
+		w2 := PathQuery{Fn: cv, Target: isSet, DelEdge: edgeSet(noLock)}.Search()
+		r.Check(len(vestZero) > 0 && w1 == nil, "R8", fnID(cv)+"#nothing-unvested", P.Pos(fnPos(cv)), "the plain account is stored only where GetVestingCoins(now) is zero", "ConvertVestingAccount can store the plain account while unvested coins remain", P.witness(w1)...)
+		r.Check(len(noLock) > 0 && w2 == nil, "R8", fnID(cv)+"#nothing-locked-up", P.Pos(fnPos(cv)), "the plain account is stored only where HasLockedCoins(now) is false", "ConvertVestingAccount can store the plain account while coins are still locked up", P.witness(w2)...)
+	} else {
+		r.Bad("R8", "anchor/ConvertVestingAccount", "", "not found")
+	}
 }
 
 // checkEndTimeStores (C08 R6, also evaluated as C09 R6): every store to a vesting account's EndTime depends
